@@ -490,25 +490,27 @@ def search_determinism(tier='quick', seed=0, count=None, only=None):
             if kind < 0.45:
                 which = rnd.choice(('shuffle', 'reshuffle', 'local', 'apply'))
                 s_ = rnd.randrange(1000)
+                # both generator families numpy offers: the legacy RandomState and the new Generator (default_rng)
+                mk_rng = np.random.RandomState if rnd.random() < 0.6 else np.random.default_rng
                 try:
                     if which == 'shuffle':
                         if not r.idx:
                             continue
-                        ds = ds.shuffle(rng=np.random.RandomState(s_))
+                        ds = ds.shuffle(rng=mk_rng(s_))
                     elif which == 'reshuffle':
                         if not r.len_:
                             continue
-                        ds = ds.shuffle(reshuffle=True, rng=np.random.RandomState(s_))
+                        ds = ds.shuffle(reshuffle=True, rng=mk_rng(s_))
                         r = Ref(r.outs, r.keys, False, True, has_keys=False, has_items=r.has_items)
                         per_epoch = True
                     elif which == 'local':
-                        ds = ds.shuffle(reshuffle=True, buffer_size=rnd.randrange(1, 4), rng=np.random.RandomState(s_))
+                        ds = ds.shuffle(reshuffle=True, buffer_size=rnd.randrange(1, 4), rng=mk_rng(s_))
                         r = Ref(r.outs, r.keys, False, r.len_, has_keys=False, has_items=r.has_items)
                         per_epoch = unfreezable = True
                     else:
                         if not r.idx:
                             continue
-                        g = np.random.RandomState(s_)
+                        g = mk_rng(s_)
                         if rnd.random() < 0.5:
                             ds = ds.apply(lambda d, g=g: d.shuffle(rng=g), lazy=True)
                         else:
@@ -601,6 +603,204 @@ def search_determinism(tier='quick', seed=0, count=None, only=None):
 
 
 # ------------------------------------------------------------------ demand across compositions (C08)
+def _flat(x):
+    if isinstance(x, (list, tuple)):
+        out = []
+        for i in x:
+            out += _flat(i)
+        return out
+    return [x]
+
+class R(object):          # reference: gen() -> generator, get(i) or None, n or None
+    def __init__(self, gen, get=None, n=None, depth=0):
+        self.gen, self.get, self.n, self.depth = gen, get, n, depth
+
+def _demand_build(sub, stacked=False, boom=None):
+    import lazy_dataset
+    rnd = random.Random(sub)
+    logs = {'real': [], 'ref': []}
+    stage = [0]
+
+    def fn_pair(kind):
+        s = stage[0]
+        stage[0] += 1
+
+        def mk(which):
+            if kind == 'map':
+                def f(x):
+                    logs[which].append((s, tuple(_flat(x))))
+                    if boom is not None and s == 0 and x == boom[0]:
+                        raise boom[1](x)          # an error inside the pipeline, at the first stage
+                    return x
+            else:
+                def f(x):
+                    logs[which].append((s, tuple(_flat(x))))
+                    return (sum(_flat(x)) + s) % 3 != 0
+            return f
+        return mk('real'), mk('ref')
+
+    def source(base):
+        n = rnd.randrange(0, 7) if rnd.random() < 0.7 else rnd.randrange(7, 14)     # longer ones make read-ahead visible
+        vals = [base + i for i in range(n)]
+        if rnd.random() < 0.5:
+            ds = lazy_dataset.new({'k%d_%d' % (base, i): v for i, v in enumerate(vals)})
+        else:
+            ds = lazy_dataset.new(list(vals))
+        r = R(lambda: iter(list(vals)), lambda i: vals[i], n)
+        f, g = fn_pair('map')
+        return ds.map(f), rmap(r, g), 'src[%d].map' % n
+
+    def rmap(r, g):
+        return R(lambda: (g(x) for x in r.gen()), (lambda i: g(r.get(i))) if r.get else None, r.n, r.depth)
+
+    def rconcat(rs):
+        def gen():
+            for r in rs:
+                yield from r.gen()
+        idx = all(r.get for r in rs)
+        ln = all(r.n is not None for r in rs)
+
+        def get(i):
+            for r in rs:
+                if i < r.n:
+                    return r.get(i)
+                i -= r.n
+            raise IndexError(i)
+        return R(gen, get if idx else None, sum(r.n for r in rs) if ln else None, rs[0].depth)
+    ds, r, desc = source(0)
+    slack = None            # (b + 1) of the prefetch stage, multiplied by the fragments per example of later unbatch stages
+    unordered = [False]     # a multi-worker stage: applications of one stage may overtake each other
+    depth = rnd.randrange(1, 6)
+    applied = tries = 0
+    while applied < depth and tries < 20:
+        tries += 1
+        name = rnd.choice(('map', 'filter', 'batch', 'unbatch', 'slice', 'concat_self', 'concat_other', 'zip', 'tile', 'catch', 'items', 'prefetch', 'index_list',
+                           'prefetch_mt', 'parmap', 'batch_map'))
+        if name == 'map':
+            f, g = fn_pair('map')
+            ds, r = ds.map(f), rmap(r, g)
+        elif name == 'filter':
+            f, g = fn_pair('filter')
+            ds = ds.filter(f, lazy=True)
+            r = (lambda r, g: R(lambda: (x for x in r.gen() if g(x)), None, None, r.depth))(r, g)
+        elif name == 'batch':
+            b = rnd.randrange(1, 4)
+            dl = rnd.random() < 0.3
+            ds = ds.batch(b, drop_last=dl)
+
+            def mkb(r, b, dl):
+                def gen():
+                    cur = []
+                    for x in r.gen():
+                        cur.append(x)
+                        if len(cur) == b:
+                            yield cur
+                            cur = []
+                    if cur and not dl:
+                        yield cur
+                n = None if r.n is None else (r.n // b if dl else -(-r.n // b))
+                get = (lambda j: [r.get(i) for i in range(j * b, min((j + 1) * b, r.n))]) if r.get else None
+                return R(gen, get, n, r.depth + 1)
+            r = mkb(r, b, dl)
+            name = 'batch(%d%s)' % (b, ',drop_last' if dl else '')
+        elif name == 'unbatch':
+            if r.depth < 1:
+                continue
+            ds = ds.unbatch()
+            r = (lambda r: R(lambda: (y for x in r.gen() for y in x), None, None, r.depth - 1))(r)
+            if slack is not None:
+                slack *= 3
+        elif name in ('slice', 'index_list'):
+            if not r.get or not r.n:
+                continue
+            if name == 'slice':
+                sl = slice(rnd.choice((None, 0, 1, 2, -2)), rnd.choice((None, 1, 3, -1, 5)), rnd.choice((None, 1, 2, -1)))
+                idx = list(range(r.n))[sl]
+                ds = ds[sl]
+                name = '[%s:%s:%s]' % (sl.start, sl.stop, sl.step)
+            else:
+                idx = [rnd.randrange(r.n) for _ in range(rnd.randrange(0, 5))]
+                ds = ds[list(idx)]
+                name = '[%r]' % (idx,)
+            r = (lambda r, idx: R(lambda: (r.get(i) for i in idx), lambda j: r.get(idx[j]), len(idx), r.depth))(r, idx)
+        elif name == 'concat_self':
+            f, g = fn_pair('map')
+            ds = ds.concatenate(ds.map(f))
+            r = rconcat([r, rmap(r, g)])
+        elif name == 'concat_other':
+            if r.depth:
+                continue
+            ods, orr, _ = source(100 * (stage[0] + 1))
+            ds = ds.concatenate(ods)
+            r = rconcat([r, orr])
+        elif name == 'tile':
+            if r.n is None:
+                continue
+            ds = ds.tile(2)
+            r = rconcat([r, r])
+        elif name == 'zip':
+            if r.n is None or (slack is not None and not stacked):        # two concurrent producers: per-stage order is scheduler-dependent
+                continue
+            f, g = fn_pair('map')
+            ds = ds.zip(ds.map(f))
+            r = (lambda r, r2: R(lambda: zip(r.gen(), r2.gen()), (lambda i: (r.get(i), r2.get(i))) if r.get else None, r.n, r.depth + 1))(r, rmap(r, g))
+        elif name == 'catch':
+            if not r.get:             # catch evaluates its input by index
+                continue
+            ds = ds.catch()
+            r = (lambda r: R(lambda: (r.get(i) for i in range(r.n)), None, None, r.depth))(r)
+        elif name == 'items':
+            try:
+                keys = list(ds.keys())
+            except Exception:      # noqa
+                continue
+            ds = ds.items()
+            # keys are strings: keep them out of the logged ids by wrapping the value only
+            ds = ds.map(_second)
+            r = r
+            name = 'items().map(value)'
+        elif name == 'prefetch':
+            if slack is not None and not stacked:
+                continue
+            b = rnd.randrange(1, 4)
+            ds = ds.prefetch(1, b)
+            r = (lambda r: R(r.gen, None, r.n, r.depth))(r)
+            slack = b + 1
+            name = 'prefetch(1,%d)' % b
+        elif name == 'prefetch_mt':
+            if (slack is not None and not stacked) or not r.get:
+                continue
+            b = rnd.randrange(2, 5)
+            ds = ds.prefetch(2, b)
+            r = (lambda r: R(r.gen, None, r.n, r.depth))(r)
+            slack, unordered[0] = b + 2, True
+            name = 'prefetch(2,%d)' % b
+        elif name == 'parmap':
+            if slack is not None and not stacked:
+                continue
+            w = rnd.randrange(1, 3)
+            b = rnd.randrange(w, 5)
+            f, g = fn_pair('map')
+            ds = ds.map(f, num_workers=w, buffer_size=b)
+            r = (lambda r, g: R(lambda: (g(x) for x in r.gen()), None, r.n, r.depth))(r, g)
+            slack, unordered[0] = b + 2, w > 1
+            name = 'map(num_workers=%d,buffer_size=%d)' % (w, b)
+        elif name == 'batch_map':
+            if (slack is not None and not stacked) or r.depth < 1:
+                continue
+            w = rnd.randrange(0, 2)
+            b = rnd.randrange(1, 4)
+            f, g = fn_pair('map')
+            ds = ds.batch_map(f, num_workers=w, buffer_size=b)
+            r = (lambda r, g: R(lambda: ([g(y) for y in x] for x in r.gen()), (lambda i: [g(y) for y in r.get(i)]) if (r.get and not w) else None, r.n, r.depth))(r, g)
+            if w:
+                slack = b + 2
+            name = 'batch_map(num_workers=%d,buffer_size=%d)' % (w, b)
+        desc += '.' + name
+        applied += 1
+    return ds, r, desc, logs, slack, unordered[0]
+
+
 def search_demand(tier='quick', seed=0, count=None):
     """C08 across compositions: a random pipeline of lazy combinators with an instrumented user function at every stage is built
     next to a reference made of plain Python generators (which are demand-driven by construction) carrying the same instrumented
@@ -619,200 +819,6 @@ def search_demand(tier='quick', seed=0, count=None):
     warnings.simplefilter('ignore')
     master = random.Random(4000 + seed)
 
-    def flat(x):
-        if isinstance(x, (list, tuple)):
-            out = []
-            for i in x:
-                out += flat(i)
-            return out
-        return [x]
-
-    class R(object):          # reference: gen() -> generator, get(i) or None, n or None
-        def __init__(self, gen, get=None, n=None, depth=0):
-            self.gen, self.get, self.n, self.depth = gen, get, n, depth
-
-    def build(sub):
-        rnd = random.Random(sub)
-        logs = {'real': [], 'ref': []}
-        stage = [0]
-
-        def fn_pair(kind):
-            s = stage[0]
-            stage[0] += 1
-
-            def mk(which):
-                if kind == 'map':
-                    def f(x):
-                        logs[which].append((s, tuple(flat(x))))
-                        return x
-                else:
-                    def f(x):
-                        logs[which].append((s, tuple(flat(x))))
-                        return (sum(flat(x)) + s) % 3 != 0
-                return f
-            return mk('real'), mk('ref')
-
-        def source(base):
-            n = rnd.randrange(0, 7) if rnd.random() < 0.7 else rnd.randrange(7, 14)     # longer ones make read-ahead visible
-            vals = [base + i for i in range(n)]
-            if rnd.random() < 0.5:
-                ds = lazy_dataset.new({'k%d_%d' % (base, i): v for i, v in enumerate(vals)})
-            else:
-                ds = lazy_dataset.new(list(vals))
-            r = R(lambda: iter(list(vals)), lambda i: vals[i], n)
-            f, g = fn_pair('map')
-            return ds.map(f), rmap(r, g), 'src[%d].map' % n
-
-        def rmap(r, g):
-            return R(lambda: (g(x) for x in r.gen()), (lambda i: g(r.get(i))) if r.get else None, r.n, r.depth)
-
-        def rconcat(rs):
-            def gen():
-                for r in rs:
-                    yield from r.gen()
-            idx = all(r.get for r in rs)
-            ln = all(r.n is not None for r in rs)
-
-            def get(i):
-                for r in rs:
-                    if i < r.n:
-                        return r.get(i)
-                    i -= r.n
-                raise IndexError(i)
-            return R(gen, get if idx else None, sum(r.n for r in rs) if ln else None, rs[0].depth)
-        ds, r, desc = source(0)
-        slack = None            # (b + 1) of the prefetch stage, multiplied by the fragments per example of later unbatch stages
-        unordered = [False]     # a multi-worker stage: applications of one stage may overtake each other
-        depth = rnd.randrange(1, 6)
-        applied = tries = 0
-        while applied < depth and tries < 20:
-            tries += 1
-            name = rnd.choice(('map', 'filter', 'batch', 'unbatch', 'slice', 'concat_self', 'concat_other', 'zip', 'tile', 'catch', 'items', 'prefetch', 'index_list',
-                               'prefetch_mt', 'parmap', 'batch_map'))
-            if name == 'map':
-                f, g = fn_pair('map')
-                ds, r = ds.map(f), rmap(r, g)
-            elif name == 'filter':
-                f, g = fn_pair('filter')
-                ds = ds.filter(f, lazy=True)
-                r = (lambda r, g: R(lambda: (x for x in r.gen() if g(x)), None, None, r.depth))(r, g)
-            elif name == 'batch':
-                b = rnd.randrange(1, 4)
-                dl = rnd.random() < 0.3
-                ds = ds.batch(b, drop_last=dl)
-
-                def mkb(r, b, dl):
-                    def gen():
-                        cur = []
-                        for x in r.gen():
-                            cur.append(x)
-                            if len(cur) == b:
-                                yield cur
-                                cur = []
-                        if cur and not dl:
-                            yield cur
-                    n = None if r.n is None else (r.n // b if dl else -(-r.n // b))
-                    get = (lambda j: [r.get(i) for i in range(j * b, min((j + 1) * b, r.n))]) if r.get else None
-                    return R(gen, get, n, r.depth + 1)
-                r = mkb(r, b, dl)
-                name = 'batch(%d%s)' % (b, ',drop_last' if dl else '')
-            elif name == 'unbatch':
-                if r.depth < 1:
-                    continue
-                ds = ds.unbatch()
-                r = (lambda r: R(lambda: (y for x in r.gen() for y in x), None, None, r.depth - 1))(r)
-                if slack is not None:
-                    slack *= 3
-            elif name in ('slice', 'index_list'):
-                if not r.get or not r.n:
-                    continue
-                if name == 'slice':
-                    sl = slice(rnd.choice((None, 0, 1, 2, -2)), rnd.choice((None, 1, 3, -1, 5)), rnd.choice((None, 1, 2, -1)))
-                    idx = list(range(r.n))[sl]
-                    ds = ds[sl]
-                    name = '[%s:%s:%s]' % (sl.start, sl.stop, sl.step)
-                else:
-                    idx = [rnd.randrange(r.n) for _ in range(rnd.randrange(0, 5))]
-                    ds = ds[list(idx)]
-                    name = '[%r]' % (idx,)
-                r = (lambda r, idx: R(lambda: (r.get(i) for i in idx), lambda j: r.get(idx[j]), len(idx), r.depth))(r, idx)
-            elif name == 'concat_self':
-                f, g = fn_pair('map')
-                ds = ds.concatenate(ds.map(f))
-                r = rconcat([r, rmap(r, g)])
-            elif name == 'concat_other':
-                if r.depth:
-                    continue
-                ods, orr, _ = source(100 * (stage[0] + 1))
-                ds = ds.concatenate(ods)
-                r = rconcat([r, orr])
-            elif name == 'tile':
-                if r.n is None:
-                    continue
-                ds = ds.tile(2)
-                r = rconcat([r, r])
-            elif name == 'zip':
-                if r.n is None or slack is not None:        # two concurrent producers: per-stage order is scheduler-dependent
-                    continue
-                f, g = fn_pair('map')
-                ds = ds.zip(ds.map(f))
-                r = (lambda r, r2: R(lambda: zip(r.gen(), r2.gen()), (lambda i: (r.get(i), r2.get(i))) if r.get else None, r.n, r.depth + 1))(r, rmap(r, g))
-            elif name == 'catch':
-                if not r.get:             # catch evaluates its input by index
-                    continue
-                ds = ds.catch()
-                r = (lambda r: R(lambda: (r.get(i) for i in range(r.n)), None, None, r.depth))(r)
-            elif name == 'items':
-                try:
-                    keys = list(ds.keys())
-                except Exception:      # noqa
-                    continue
-                ds = ds.items()
-                # keys are strings: keep them out of the logged ids by wrapping the value only
-                ds = ds.map(_second)
-                r = r
-                name = 'items().map(value)'
-            elif name == 'prefetch':
-                if slack is not None:
-                    continue
-                b = rnd.randrange(1, 4)
-                ds = ds.prefetch(1, b)
-                r = (lambda r: R(r.gen, None, r.n, r.depth))(r)
-                slack = b + 1
-                name = 'prefetch(1,%d)' % b
-            elif name == 'prefetch_mt':
-                if slack is not None or not r.get:
-                    continue
-                b = rnd.randrange(2, 5)
-                ds = ds.prefetch(2, b)
-                r = (lambda r: R(r.gen, None, r.n, r.depth))(r)
-                slack, unordered[0] = b + 2, True
-                name = 'prefetch(2,%d)' % b
-            elif name == 'parmap':
-                if slack is not None:
-                    continue
-                w = rnd.randrange(1, 3)
-                b = rnd.randrange(w, 5)
-                f, g = fn_pair('map')
-                ds = ds.map(f, num_workers=w, buffer_size=b)
-                r = (lambda r, g: R(lambda: (g(x) for x in r.gen()), None, r.n, r.depth))(r, g)
-                slack, unordered[0] = b + 2, w > 1
-                name = 'map(num_workers=%d,buffer_size=%d)' % (w, b)
-            elif name == 'batch_map':
-                if slack is not None or r.depth < 1:
-                    continue
-                w = rnd.randrange(0, 2)
-                b = rnd.randrange(1, 4)
-                f, g = fn_pair('map')
-                ds = ds.batch_map(f, num_workers=w, buffer_size=b)
-                r = (lambda r, g: R(lambda: ([g(y) for y in x] for x in r.gen()), (lambda i: [g(y) for y in r.get(i)]) if (r.get and not w) else None, r.n, r.depth))(r, g)
-                if w:
-                    slack = b + 2
-                name = 'batch_map(num_workers=%d,buffer_size=%d)' % (w, b)
-            desc += '.' + name
-            applied += 1
-        return ds, r, desc, logs, slack, unordered[0]
-
     def per_stage(log):
         out = {}
         for s, ids in log:
@@ -821,7 +827,7 @@ def search_demand(tier='quick', seed=0, count=None):
     while cases < N:
         sub = master.randrange(10 ** 9)
         try:
-            ds, r, desc, logs, slack, unordered = build(sub)
+            ds, r, desc, logs, slack, unordered = _demand_build(sub)
         except Exception:      # noqa   (recipes the library refuses to build belong to the conformance search)
             continue
         if logs['real']:
@@ -906,3 +912,135 @@ def search_demand(tier='quick', seed=0, count=None):
 
 def _second(kv):
     return kv[1]
+
+
+# ------------------------------------------------------------------ stopping across compositions (C05)
+def search_stop(tier='quick', seed=0, count=None):
+    """C05 across compositions: the random recipes of the demand search, now with one OR SEVERAL buffering stages (stacked
+    prefetch(1,b) / prefetch(2,b) / map(num_workers) / batch_map(num_workers) with lazy stages in between), are stopped after
+    k results (k = 0, 1, the middle, all) by close(), by dropping the iterator, and by an exception thrown into it.  Checked:
+    the stop returns within 20 s (no deadlock); when it has returned no user function runs any more (application log
+    unchanged 50 ms later) and every thread the iteration started has exited (a pool thread may take a moment to finish its
+    bookkeeping; one that is still alive after 2 s is reported)."""
+    os.environ.setdefault('OMP_NUM_THREADS', '1')
+    os.environ.setdefault('MKL_NUM_THREADS', '1')
+    import gc
+    import signal
+    import threading
+    import time
+    N = count or (60 if tier == 'quick' else 600)
+    fails, cases = [], 0
+    warnings.simplefilter('ignore')
+    master = random.Random(7000 + seed)
+
+    class Hang(BaseException):
+        pass
+
+    def on_alarm(signum, frame):
+        raise Hang()
+    old_handler = signal.signal(signal.SIGALRM, on_alarm)
+    try:
+        while cases < N and len(fails) < 3:
+            sub = master.randrange(10 ** 9)
+            try:
+                ds, r, desc, logs, slack, unordered = _demand_build(sub, stacked=True)
+                if slack is None:
+                    continue
+                m = len(list(r.gen()))
+            except Exception:      # noqa
+                continue
+            cases += 1
+            for how in ('close', 'drop', 'throw'):
+                for k in sorted({0, 1, m // 2, m}):
+                    if k > m:
+                        continue
+                    ds, r, desc, logs, slack, unordered = _demand_build(sub, stacked=True)
+                    before = set(threading.enumerate())
+                    bad = None
+                    signal.alarm(20)
+                    try:
+                        it = iter(ds)
+                        for _ in range(k):
+                            next(it)
+                        if how == 'close':
+                            it.close()
+                        elif how == 'drop':
+                            del it
+                            gc.collect()
+                        else:
+                            try:
+                                it.throw(KeyboardInterrupt()) if k else it.close()
+                            except KeyboardInterrupt:
+                                pass
+                            except StopIteration:
+                                pass
+                        signal.alarm(0)
+                    except Hang:
+                        bad = ('returns-in-finite-time', 'no return within 20 s', 'the stop returns')
+                    except BaseException as e:      # noqa
+                        signal.alarm(0)
+                        bad = ('stop', '%s: %s' % (type(e).__name__, str(e)[:120]), 'the stop returns normally')
+                    if bad is None:
+                        c0 = len(logs['real'])
+                        alive = [t for t in threading.enumerate() if t not in before and t.is_alive()]
+                        time.sleep(0.05)
+                        c1 = len(logs['real'])
+                        if c1 != c0:
+                            bad = ('no-user-code-after-the-stop', '%d further applications: %r' % (c1 - c0, logs['real'][c0:c0 + 4]), 'none')
+                        elif alive:
+                            # a pool thread that is just finishing its bookkeeping is tolerated for a moment; a thread that stays is not
+                            t0 = time.time()
+                            while time.time() - t0 < 2 and any(t.is_alive() for t in alive):
+                                time.sleep(0.01)
+                            left = [t.name for t in alive if t.is_alive()]
+                            if left:
+                                bad = ('background-threads-have-exited', 'still alive after 2 s: %r' % left, 'none')
+                    if bad:
+                        fails.append({'scenario': '%s; %s after %d of %d results' % (desc, how, k, m),
+                                      'mismatches': [{'clause': bad[0], 'observed': bad[1], 'expected': bad[2]}]})
+                        break
+                if fails and fails[-1]['scenario'].startswith(desc):
+                    break
+            # an error inside the pipeline (Exception and BaseException kinds) instead of a consumer stop
+            n0 = int(desc[len('src['):desc.index(']')])
+            for exc in (O.Boom, O.BoomBase):
+                if (fails and fails[-1]['scenario'].startswith(desc)) or not n0:
+                    break
+                pos = master.randrange(n0)
+                ds, r, desc, logs, slack, unordered = _demand_build(sub, stacked=True, boom=(pos, exc))
+                before = set(threading.enumerate())
+                bad = None
+                signal.alarm(20)
+                try:
+                    try:
+                        for _ in ds:
+                            pass
+                        ended = 'ended normally'
+                    except (O.Boom, O.BoomBase) as e:
+                        ended = type(e).__name__
+                    signal.alarm(0)
+                except Hang:
+                    bad = ('returns-in-finite-time', 'no return within 20 s', 'the iteration ends')
+                except BaseException as e:      # noqa
+                    signal.alarm(0)
+                    ended = type(e).__name__
+                if bad is None:
+                    c0 = len(logs['real'])
+                    alive = [t for t in threading.enumerate() if t not in before and t.is_alive()]
+                    time.sleep(0.05)
+                    if len(logs['real']) != c0:
+                        bad = ('no-user-code-after-the-error', '%d further applications' % (len(logs['real']) - c0), 'none')
+                    else:
+                        t0 = time.time()
+                        while time.time() - t0 < 2 and any(t.is_alive() for t in alive):
+                            time.sleep(0.01)
+                        left = [t.name for t in alive if t.is_alive()]
+                        if left:
+                            bad = ('background-threads-have-exited', 'still alive after 2 s: %r' % left, 'none')
+                if bad:
+                    fails.append({'scenario': '%s; %s raised by the first stage at example %d' % (desc, exc.__name__, pos),
+                                  'mismatches': [{'clause': bad[0], 'observed': bad[1], 'expected': bad[2]}]})
+    finally:
+        signal.alarm(0)
+        signal.signal(signal.SIGALRM, old_handler)
+    return cases, fails
